@@ -7,6 +7,8 @@ whatever lies behind it in memory.  Such a call is undefined behaviour that no o
 reliably, so the harness wraps the function (it is looked up through the module at call time) and turns a call that
 breaks the precondition into a violation of the running case.
 """
+import numpy as np
+
 from .core import Violation
 
 
@@ -17,15 +19,16 @@ def install():
         return
     orig = nf.reduce_array_pair
 
-    def reduce_array_pair(x, y, reducer, counts=None, y_counts=None):
+    def reduce_array_pair(x, y, *args, **kwargs):
+        # signature-agnostic: whatever further arrays are handed over (counts, y_counts, ...) are indexed with range(len(x))
         n = len(x)
-        bad = [name for name, a in (("y", y), ("counts", counts), ("y_counts", y_counts)) if a is not None and len(a) < n]
+        named = [("y", y)] + [(f"arg{i + 2}", a) for i, a in enumerate(args)] + list(kwargs.items())
+        bad = [(name, len(a)) for name, a in named if isinstance(a, np.ndarray) and a.ndim == 1 and len(a) < n]
         if bad:
             raise Violation("kernel-contract:reduce_array_pair-out-of-bounds",
-                            f"reduce_array_pair loops over len(x)={n} but " +
-                            ", ".join(f"len({b})={len({'y': y, 'counts': counts, 'y_counts': y_counts}[b])}" for b in bad) +
+                            f"reduce_array_pair loops over len(x)={n} but " + ", ".join(f"len({b})={k}" for b, k in bad) +
                             ": the merge of per-chunk results reads past the end of a buffer")
-        return orig(x, y, reducer=reducer, counts=counts, y_counts=y_counts)
+        return orig(x, y, *args, **kwargs)
 
     reduce_array_pair._verif_wrapped = True
     reduce_array_pair.__wrapped__ = orig
